@@ -136,7 +136,8 @@ def afterDay (c : Case) (i : String) (t : Int) : C24.Day := (C24.specGet c.opts 
 
 /-! ### judge -/
 
-def isHidden (s : String) : Bool := s.toList.head? == some '.'
+/-- the staging directory of a merge (`info.MergeStagePrefix`) -/
+def isHidden (s : String) : Bool := ".gpdb-merge-stage-".toList.isPrefixOf s.toList
 
 def rowKeyOf (row : String) : Option (String × Int) :=
   match row.splitOn "@" with
